@@ -29,6 +29,10 @@ pub fn span_j(tcx: TyCtxt<'_>, span: Span) -> J {
         format!("{}:{}:{}", f, lo.line, lo.col.0 + 1)
     };
     o.push("loc", J::s(loc_of(span)));
+    if !span.is_dummy() {
+        let hi = sm.lookup_char_pos(span.hi());
+        o.push("end_line", J::Num(hi.line as i128));
+    }
     if exp {
         let data = span.ctxt().outer_expn_data();
         o.push("exp", J::s(format!("{:?}", data.kind)));
